@@ -8,6 +8,7 @@
       it from every role list
  R7.4 every designator container parameter of a public method is used through its elements, not only its size
  R7.7 the next free rank of a role is computed after the role was cleaned
+ R7.8 every column of a reduced data base (Db::resetReduce) depends on the list of selected samples
  R7.6 a role rank received as a parameter is compared with the length of the role list before it indexes it
  R7.5 the file-static scratch buffers of the Db sources are refilled before every read (no value carried over from the
       previous call / another Db); file-static hidden arguments are assigned before the calls that read them
@@ -337,6 +338,42 @@ def r7_7(prog, chk):
     chk.floor("R7.7", n, 3)
 
 
+def r7_8(prog, chk):
+    """R7.8 - every column of a reduced data base follows the list of selected samples.  In Db::resetReduce the values are loaded
+    through the rank list; any other column the function adds (the coordinates re-created for a grid) must depend on the same
+    list (flow-sensitive dependences): a column added in the original order next to values that follow the list puts the data
+    of two different samples on one row."""
+    from e2_deps import Deps
+    n = 0
+    for f in prog.fns("Db::resetReduce"):
+        if f.cfg is None:
+            continue
+        rp = [p["n"] for p in f.params if "VectorInt" in p["t"] or "vector<int" in p["t"]]
+        if not rp:
+            raise facts.AnalysisBroken("Db::resetReduce: rank list parameter not found")
+        dp = Deps(f).solve()
+        for c in f.calls():
+            short = (c.get("callee") or "").split("::")[-1]
+            if short not in ("addColumns", "_loadValues", "addColumnsByVVD"):
+                continue
+            a = [x for x in call_args(c) if x is not None]
+            if not a:
+                continue
+            st = dp.state_before(c)
+            deps = set()
+            for x in a:
+                deps |= dp.deps(x, st)
+            n += 1
+            ok = ("P:" + rp[0]) in deps
+            chk.analysed(f)
+            chk.ob("R7.8", "%s: the column(s) handed to %s follow the rank list `%s`" % (f.name, short, rp[0]), f.loc(c), ok,
+                   detail=None if ok else "on some path the column does not depend on `%s` (it depends on {%s}): it is stored in the order of the input "
+                   "data base while the other columns follow the list - with a list that permutes or repeats samples the rows mix two samples" % (
+                       rp[0], ", ".join(sorted(x for x in deps if x.startswith(("C:", "P:"))))[:100]),
+                   key="R7.8|%s|%s#%d" % (f.name, short, n))
+    chk.floor("R7.8", n, 2)
+
+
 def main(tier):
     chk = Check("C07", tier,
                 "Static structural clauses of Db consistency: the internal maps are private; every method that changes the shape of "
@@ -360,6 +397,7 @@ def main(tier):
     r7_4(prog, chk)
     r7_6(prog, chk)
     r7_7(prog, chk)
+    r7_8(prog, chk)
     # R7.5 no state carried from one call to the next through file-statics of the Db sources
     import c10
     c10.scratch_static_rule(prog, chk, ["src/Db/Db.cpp"], "R7.5", 1)
